@@ -519,21 +519,29 @@ def guarded_map(fn, items, per_item_timeout: float = 5.0, nproc: int = NCPU, max
 
     with cf.ThreadPoolExecutor(nproc) as ex:
         list(ex.map(run_shard, shards))
-    # second chance: a timeout under machine load must not be reported as a hang — re-run each timed-out item alone,
-    # sequentially, with six times the budget; only an item that still does not finish keeps {"timeout": True}
+    # second chance: a timeout under machine load must not be reported as a hang — re-run timed-out items alone,
+    # sequentially, with three times the budget; an item that still does not finish keeps {"timeout": True}.  After two
+    # confirmed hangs the rest keep their verdict unexamined (a real hang is established; the check must stay fast).
+    confirmed = 0
     for i, r in enumerate(res):
         if isinstance(r, dict) and r.get("timeout"):
+            if confirmed >= 2:
+                break
             parent, child = ctx.Pipe(duplex=False)
             p = ctx.Process(target=_guard_child, args=(fn, [items[i]], 0, child), daemon=True)
             p.start()
             child.close()
+            finished = False
             try:
-                if parent.poll(per_item_timeout * 6):
+                if parent.poll(per_item_timeout * 3):
                     k, rr = parent.recv()
                     if k == 0:
                         res[i] = rr
+                        finished = True
             except EOFError:
                 pass
+            if not finished:
+                confirmed += 1
             p.kill()
             p.join()
             parent.close()
